@@ -172,6 +172,49 @@ def serve {Ident : Type} (f : Flavor) (routes : List Entry) (arm : StartArm) (c 
     (path : List String) (m : Method) : LiveResp :=
   serveWith IpaVerif.Generated.Routes.tlsSetup f routes arm c path m
 
+/-! ## From the caller's `ServerConfig` to a running server (suite `c20_live` op `c20.ctor`)
+
+`IpaHttpServer::new_mpc` / `new_shards` STORE the configuration; `start_on` matches on the stored
+`disable_https`. The serving mode is therefore a function of the configuration as written by the caller:
+header layer iff `disable_https == true`; `disable_https == false` without key material does not start
+(`rustls_config(..).expect("invalid TLS configuration")`). -/
+
+/-- the two fields of `ServerConfig` that matter: `disable_https` and `tls.is_some()` -/
+structure SrvConfig where
+  disableHttps : Bool
+  tlsPresent : Bool
+  deriving DecidableEq, Repr
+
+/-- the constructors as written: the configuration is stored as handed in -/
+def ctorStore (c : SrvConfig) : SrvConfig := c
+
+/-- NOT the code — the "normalising" constructor `config.disable_https |= config.tls.is_none()` -/
+def ctorNormalise (c : SrvConfig) : SrvConfig := { c with disableHttps := c.disableHttps || !c.tlsPresent }
+
+inductive StartOutcome where
+  | refuses                 -- `start_on` panics ("invalid TLS configuration")
+  | serves (arm : StartArm) -- a server is spawned with what this arm hands to `spawn_server`
+  deriving DecidableEq, Repr
+
+/-- `start_on` on the STORED configuration: the arm is chosen by `(self.config.disable_https, listener)`; a
+TLS arm needs the key material (`certificate_and_key`: `None => Err`), a plain arm never looks at `tls`. -/
+def startOn (c : SrvConfig) (listener : Bool) : Option StartOutcome :=
+  (armFor c.disableHttps listener).map fun arm =>
+    if arm.tlsAcceptor && !c.tlsPresent then .refuses else .serves arm
+
+/-- constructor, then `start_on` -/
+def bootWith (ctor : SrvConfig → SrvConfig) (c : SrvConfig) (listener : Bool) : Option StartOutcome :=
+  startOn (ctor c) listener
+
+def boot : SrvConfig → Bool → Option StartOutcome := bootWith ctorStore
+
+/-- one request to whatever `boot` left running (nothing: no answer) -/
+def serveBooted {Ident : Type} (f : Flavor) (routes : List Entry) (o : Option StartOutcome)
+    (c : Client Ident) (path : List String) (m : Method) : LiveResp :=
+  match o with
+  | some (.serves arm) => serve f routes arm c path m
+  | _ => .connErr
+
 /-! ## The presented certificate chain (`ClientCertRecognizingAcceptor::accept`, suite `c20_live` op `c20.chain`)
 
 A TLS client sends a *list* of certificates. rustls/webpki validate the FIRST one (the end-entity
